@@ -2,6 +2,7 @@
 # usage: mutant_wt.sh <scratch worktree of /repo> <patch file> <Cxx> [<Cxx>...]
 # applies the patch inside the scratch worktree, runs the quick checks against it
 # (HERMES_REPO=<worktree>; /repo itself is not touched), and reverts the worktree.
+here="$(cd "$(dirname "$0")/.." && pwd)"
 wt="$1"; patch="$(readlink -f "$2")"; shift; shift
 cd "$wt" || exit 2
 git checkout -q -- . 2>/dev/null
@@ -9,7 +10,7 @@ if ! git apply "$patch" 2>/dev/null; then
   if ! git apply -3 "$patch" 2>/dev/null; then echo "PATCH-DOES-NOT-APPLY $patch"; git checkout -q -- .; exit 3; fi
 fi
 for p in "$@"; do
-  out=$(cd /verif && HERMES_REPO="$wt" ./check "$p" quick 2>&1); rc=$?
+  out=$(cd "$here" && HERMES_REPO="$wt" ./check "$p" quick 2>&1); rc=$?
   echo "== $(basename $(dirname $patch)) $p rc=$rc: $(echo "$out" | grep -c '^VIOLATION') violation lines; $(echo "$out" | tail -1)"
   echo "$out" | grep -m2 "^VIOLATION" | cut -c1-300
 done
